@@ -177,7 +177,9 @@ def gen_history(rng, al, maxtx):
     for _ in range(rng.randrange(1, maxtx + 1)):
         gap(0.4)
         if rng.random() < 0.25:
-            s.append(rng.choice([("sub", rng.randrange(3)), ("unsub", rng.randrange(3))]))
+            # "oneshot": a subscriber that unsubscribes itself from INSIDE its callback, on the first report it gets
+            s.append(rng.choice([("sub", rng.randrange(3)), ("unsub", rng.randrange(3)),
+                                 ("oneshot", rng.randrange(3))]))
         k = rng.random()
         if k < 0.10:
             fwd(al.plain())
@@ -302,15 +304,32 @@ async def run_history(loop, script, dev_inst_map, tail):
 
     def probe(drv, command, response, err):
         evlog.append("M.%d" % len(reports))
+        mtimes.append(loop.time())
         reports.append(canon_real_report(command, response, err))
         objs.append((id(command), id(response), err))
         keep.append((command, response))      # keep the objects alive so that their ids stay unique
     keep = []
+    mtimes, utimes = [], {}    # virtual time of every delivery to the probe / of a one-shot subscriber's leaving
     d.bus_traffic.register(probe)
 
     def mk(i):
         def cb(drv, command, response, err):
             seen[i].append((id(command), id(response), err))
+        return cb
+
+    def close_window(i):
+        # deliveries that were under way when slot i left can only arrive before the slot is taken again
+        if utimes.get(i) and utimes[i][-1][2] is None:
+            utimes[i][-1][2] = len(seen[i])
+
+    def mk_oneshot(i):
+        def cb(drv, command, response, err):
+            seen[i].append((id(command), id(response), err))
+            if i in handles:
+                # leaves while the report is being handed round: the subscribers after it must still get it
+                handles.pop(i).unregister()
+                evlog.append("U.%d" % i)
+                utimes.setdefault(i, []).append([loop.time(), len(seen[i]), None])
         return cb
 
     def responder(data):
@@ -342,6 +361,7 @@ async def run_history(loop, script, dev_inst_map, tail):
         elif k == "sub":
             await sim.settle(4)
             if step[1] not in handles:
+                close_window(step[1])
                 handles[step[1]] = d.bus_traffic.register(mk(step[1]))
                 evlog.append("S.%d" % step[1])
         elif k == "unsub":
@@ -349,6 +369,12 @@ async def run_history(loop, script, dev_inst_map, tail):
             if step[1] in handles:
                 handles.pop(step[1]).unregister()
                 evlog.append("U.%d" % step[1])
+        elif k == "oneshot":
+            await sim.settle(4)
+            if step[1] not in handles:
+                close_window(step[1])
+                handles[step[1]] = d.bus_traffic.register(mk_oneshot(step[1]))
+                evlog.append("S.%d" % step[1])
         elif k == "own":
             c, bus = step[1], step[2]
             responder.bus, responder.frame = bus, bytes(c.frame.pack_len(4))
@@ -376,6 +402,19 @@ async def run_history(loop, script, dev_inst_map, tail):
     index = {o: n for n, o in enumerate(objs)}
     for i, lst in seen.items():
         per_sub[i] = [index.get(o, -1) for o in lst]
+    # A subscriber that leaves from inside its callback may still be handed reports that had been emitted before
+    # it left (its deliveries were already under way): those are the ones the probe was given at the very same
+    # virtual instant.  They are dropped from its list here, so that the registry law is judged on what was
+    # emitted while it was subscribed; anything handed to it at a LATER instant stays and is a violation.
+    for i, leaves in utimes.items():
+        for t_left, n_then, n_end in reversed(leaves):
+            surplus = 0
+            for k in per_sub[i][n_then:n_end]:
+                if 0 <= k < len(mtimes) and mtimes[k] == t_left:
+                    surplus += 1
+                else:
+                    break
+            del per_sub[i][n_then:n_then + surplus]
     return ts.log, snap, final, evlog, per_sub, own_results
 
 
